@@ -109,7 +109,33 @@ func VH14a_backoff() {
 	everConnected := false
 	var prevGap time.Duration
 	havePrev := false
+	// deep runs: the maximum reconnect time may be changed on the started dialer (or on its socket) after the 2nd
+	// or 5th attempt - to another cap or to 0 = "no cap" (the delay then stays at the reconnect time)
+	changeAt, newMax, viaSocket := -1, time.Duration(0), false
+	capChanged := false
+	if pattern != nil {
+		switch verif.Choice("change-max", 5) {
+		case 1:
+			changeAt, newMax = 1, 0
+		case 2:
+			changeAt, newMax = 4, 0
+		case 3:
+			changeAt, newMax = 1, 350*time.Millisecond
+		case 4:
+			changeAt, newMax, viaSocket = 4, 0, true
+		}
+	}
 	for i := 0; i < A; i++ {
+		if i == changeAt {
+			if viaSocket {
+				verif.Assert(sock.SetOption(mangos.OptionMaxReconnectTime, newMax) == nil, lab+"/set-max-on-socket")
+			} else {
+				verif.Assert(d.SetOption(mangos.OptionMaxReconnectTime, newMax) == nil, lab+"/set-max-on-dialer")
+			}
+			m = newMax // (a socket-level setting is pushed into its dialers)
+			havePrev = false
+			capChanged = true
+		}
 		if len(outcomes) != i+1 || len(td.Dials) != i+1 {
 			verif.Fail(lab + "/attempt-count-out-of-step")
 			return
@@ -171,7 +197,10 @@ func VH14a_backoff() {
 		}
 		gap := td.Dials[i+1] - tFail
 		verif.Assert(gap >= r, lab+"/redial-sooner-than-reconnect-time")
-		if m == 0 {
+		if m == 0 && capChanged {
+			// the cap was lifted mid-run: whatever the delay has grown to, it never drops below the reconnect time
+			// (asserted above) - what exactly it stays at is not said by the property
+		} else if m == 0 {
 			verif.Assert(gap == r, lab+"/delay-changes-without-max-reconnect-time")
 		} else {
 			verif.Assert(gap <= m, lab+"/delay-exceeds-max-reconnect-time")
